@@ -20,7 +20,7 @@ run bit-for-bit against the real event-loop arms by component `sys`) and then di
   cumulative-ACK high-water mark, `in_flight_packets = packet_log.len()`), window in `[1000, 60000]`,
   `in_flight ≥ 0`, and every queued sequence number is a 31-bit SRT data number.
   `SysInv_fresh` (links as built by `SrtlaConnection::new_registering`), `SysInv_step` (EVERY event
-  constructor: client, uplink, flush, hk, setCfg, crit, failNext, failBind, stamp), `SysInv_run`; exported as
+  constructor: client, uplink, flush, hk, setCfg, crit, failNext, failBind, stamp, syncTimeout), `SysInv_run`; exported as
   `C02_inv_sys` and `C06_range_sys`.  Any `Scalar` instance — `Float` included.
 * `QualInv s` — the cached quality multiplier of every link is in `[0.35, 1.1·1.03]`: `QualInv_step`,
   `QualInv_run` for the scalar code read in an ordered field under `ExpLaw e` (exact arithmetic; IEEE
